@@ -221,6 +221,7 @@ class Executor:
         self.inputs = []     # (name, term, kind) of the function under proof
         self.call_depth = 0
         self.frame_spec = None
+        self.sym_rids = []
 
     # ------------------------------------------------------------ helpers
     def fresh(self, name, sort):
@@ -228,14 +229,36 @@ class Executor:
         return z3.Const("%s!%d" % (name, self.n), sort)
 
     def fresh_rid(self):
+        """A newly allocated region / object id. It differs from every symbolic id that already exists (parameters,
+        values havoc'd at a loop head, callee results): those were created before this allocation."""
         self.nfresh += 1
-        return rid(FRESH_BASE + self.nfresh)
+        f = rid(FRESH_BASE + self.nfresh)
+        for t in self.sym_rids:
+            self.facts.append(t != f)
+        return f
 
     def fresh_value(self, t, name):
         ls = leaves(t)
         terms = [self.fresh(name + ("." + ".".join(str(x) for x in p) if p else ""), s) for p, s in ls]
         v, _ = unflatten(t, terms)
+        self.collect_rids(v, self.sym_rids)
         return v
+
+    def collect_rids(self, v, out):
+        if isinstance(v, SliceV):
+            if v.rid is not None:
+                out.append(v.rid)
+        elif isinstance(v, PtrV):
+            out.append(v.oid)
+        elif isinstance(v, IfaceV):
+            out.append(v.oid)
+        elif isinstance(v, StructV):
+            for x in v.f.values():
+                if x is not None:
+                    self.collect_rids(x, out)
+        elif isinstance(v, ArrV) and v.items is not None:
+            for x in v.items:
+                self.collect_rids(x, out)
 
     def zero_value(self, t):
         terms = []
